@@ -433,12 +433,19 @@ LITERALS = collections.OrderedDict([
     ("colon and slash", ["'s3://b/k'", "'a:b'", "'/x/y'"]),
     ("tab inside", ["'a\tb'", "'x\ty'", "'\t'"]),
     ("digits only", ["'123'", "'007'", "'0'"]),
+    ("double quote inside single quotes", ["'5\" wide'", "'say \"hi\"'", "'a\"b'"]),
+    ("double quote, then double dash", ["'size 5\" -- approx'", "'a\" --b'", "'\"--'"]),
+    ("quoted word, then double dash", ["'say \"hi\" -- x'", "'\"a\"--'", "'\"\" -- y'"]),
+    ("apostrophe inside double quotes", ['"it\'s"', '"a\'b"', '"\'"']),
+    ("double dash inside double quotes", ['"a -- b"', '"--"', '"x--y"']),
+    ("line break inside", ["'line one\nline two'", "'a\nb'", "'x,\ny'"]),
 ])
 LITERAL_SCRIPTS = collections.OrderedDict([
     ("DEFAULT, own line", "CREATE TABLE t (\n  a varchar(10) DEFAULT {L},\n  b int\n);\n"),
     ("COMMENT, own line", "CREATE TABLE t (\n  a int COMMENT {L},\n  b int\n);\n"),
     ("DEFAULT, one-line statement", "CREATE TABLE t (a varchar DEFAULT {L}, b int);\n"),
     ("table option, last line", "CREATE TABLE t (\n  a int\n) COMMENT={L};\n"),
+    ("table option followed by glued options", "CREATE TABLE t (\n  a int\n) COMMENT={L} ENGINE=InnoDB AUTO_INCREMENT=5;\n"),
 ])
 
 
@@ -446,9 +453,22 @@ def check_literals(ck, ctx, rule="O-literal"):
     """the characters of a quoted literal reach the grammar exactly as written: the script is formed into lines and run through the
     line machine (both evaluated abstractly); the one statement handed over must contain the literal verbatim"""
     lm = LineMachine(ctx)
+    from .seam import lexemes
     n = 0
+
+    def around(text, q):
+        """the statement text before the first and after the last quote character q"""
+        i, j = text.find(q), text.rfind(q)
+        return (text[:i], text[j + 1:]) if 0 <= i < j else (text, "")
+
+    ref = {}
+    for sname, tmpl in LITERAL_SCRIPTS.items():
+        h = list(lm.run_script(tmpl.replace("{L}", "'w'"))[0])
+        if len(h) != 1:
+            raise AnalysisError(f"O-literal: the reference script ({sname}) does not reach the grammar as one statement")
+        ref[sname] = tuple(lexemes(ctx.lexer, part) for part in around(h[0], "'"))
     for lname, lits in LITERALS.items():
-        fails = []
+        fails, rest_fails = [], []
         for sname, tmpl in LITERAL_SCRIPTS.items():
             n += 1
             texts = [tmpl.replace("{L}", l) for l in lits]
@@ -463,10 +483,23 @@ def check_literals(ck, ctx, rule="O-literal"):
                     raise AnalysisError(f"O-literal {lname} ({sname}): {e}")
                 if len(handed) != 1 or not isinstance(handed[0], str) or lit not in handed[0]:
                     fails.append((sname, text, f"{lit} reaches the grammar as {handed!r}"))
+                if len(handed) == 1 and isinstance(handed[0], str):
+                    got = tuple(lexemes(ctx.lexer, part) for part in around(handed[0], lit[0]))
+                    if got != ref[sname]:
+                        rest_fails.append((sname, text, f"around {lit} the statement reaches the grammar as {handed[0]!r}"))
+                elif not fails or fails[-1][0] != sname:
+                    rest_fails.append((sname, text, f"{lit}: {len(handed)} statements handed over"))
+                if (fails and fails[-1][0] == sname) or (rest_fails and rest_fails[-1][0] == sname):
                     break
+        title = f"literal with {lname}" if not lname.endswith("word") and not lname.endswith("words") else f"literal: {lname}"
         ok = not fails
-        ck.ob(rule, f"literal with {lname}" if not lname.endswith("word") and not lname.endswith("words") else f"literal: {lname}", ok,
+        ck.ob(rule, title, ok,
               "the literal must reach the grammar verbatim, inside one statement" +
               ("" if ok else f"; in {len(fails)} of {len(LITERAL_SCRIPTS)} positions ({', '.join(f[0] for f in fails)}): {fails[0][2]}"),
               "Parser.pre_process_data / parse_data / process_line (evaluated abstractly)", witness=None if ok else repr(fails[0][1])[:160])
+        ok = not rest_fails
+        ck.ob(rule + ".rest", title, ok,
+              "the statement around the literal must be scanned into the same lexemes as around a one-word literal" +
+              ("" if ok else f"; in {len(rest_fails)} of {len(LITERAL_SCRIPTS)} positions ({', '.join(f[0] for f in rest_fails)}): {rest_fails[0][2]}"),
+              "Parser.pre_process_data / parse_data / process_line (evaluated abstractly)", witness=None if ok else repr(rest_fails[0][1])[:160])
     ck.count("literal_instances", n)
